@@ -108,9 +108,32 @@ def alias_across_types(ctx, n):
         holder = dict(name='Holder', bases=[], registered=True, kind='plain', params=params, all_params=params,
                       extra=False, abstract=None, define_init=True)
         spec = [enum_c, strl, holder]
-        word = rng.choice(['a', 'b', 'true'] if other == ('cls', 'Kind') else ['a', 'file', 'x y'])
-        shape = rng.choice(['key-as-value', 'attr', 'value-as-key', 'list'])
-        if shape == 'key-as-value':
+        word = rng.choice(['a', 'b', 'true'] if other == ('cls', 'Kind') else ['a', 'file', 'x y', ''])
+        shape = rng.choice(['key-as-value', 'attr', 'value-as-key', 'list', 'empty-coll'])
+        if word == '':
+            S = lambda w, _S=G.S: _S(w, True) if w == '' else _S(w)   # noqa: E731
+        else:
+            S = G.S
+        if shape == 'empty-coll':
+            # an EMPTY collection anchored at a position of one type and reused at another
+            opts = dict(name='Opts', bases=[], registered=True, kind='plain',
+                        params=[dict(name='v', type=('int',), default=0)], extra=False, abstract=None,
+                        define_init=True)
+            opts['all_params'] = opts['params']
+            second = rng.choice([('any',), CM.t_opt(('map', 'dict', ('str',), ('int',))),
+                                 ('map', 'dict', ('str',), ('cls', 'Opts')), ('seq', 'list', ('int',))])
+            hp = [dict(name='o', type=rng.choice([('cls', 'Opts'), ('seq', 'list', ('str',))])),
+                  dict(name='d', type=second)]
+            holder2 = dict(name='Holder2', bases=[], registered=True, kind='plain', params=hp, all_params=hp,
+                           extra=False, abstract=None, define_init=True)
+            spec = [opts, holder2]
+            t = ('cls', 'Holder2')
+            empty = ('m', [], None) if hp[0]['type'] == ('cls', 'Opts') else ('q', [], None)
+            pairs = [(S('o'), ('&', 'y1', empty)), (S('d'), ('*', 'y1'))]
+            if rng.random() < 0.5:
+                pairs = [(S('d'), ('&', 'y1', empty)), (S('o'), ('*', 'y1'))]
+            doc = ('m', pairs, None)
+        elif shape == 'key-as-value':
             t = ('map', 'dict', ('str',), other)
             doc = ('m', [(('&', 'y1', S(word)), ('*', 'y1')), (S('z'), S(word))], None)
         elif shape == 'value-as-key':
@@ -132,6 +155,233 @@ def alias_across_types(ctx, n):
             ctx.count('gen_error:' + type(e).__name__)
             continue
         ctx.count('alias_across_types')
+        yield c
+
+
+def untyped_regions(ctx, n):
+    """yield cases whose documents carry tags INSIDE regions that no declared type describes: below an
+    Any-typed attribute, among the unknown keys collected into _yatiml_extra, under load_function(Any)
+    or List[Any] / Dict[str, Any] — at values and at mapping keys alike, including complex keys"""
+    yaml, yatiml = L.setup()
+    rng = ctx.rng
+    S = G.S
+    P = lambda nm, t, **kw: dict(name=nm, type=t, **kw)   # noqa: E731
+
+    def plain(name, params, extra=False, **kw):
+        return dict(name=name, bases=[], registered=True, kind='plain', params=params, all_params=params,
+                    extra=extra, abstract=None, define_init=True, **kw)
+    for _ in range(n):
+        spec = [dict(name='Kind', bases=[], registered=True, kind='enum', members=['a', 'b', 'true']),
+                dict(name='Word', bases=[], registered=True,
+                     kind=rng.choice(['str', 'userstring', 'yatimlstring'])),
+                plain('Thing', [P('v', ('int',))]),
+                plain('Open', [P('a', ('int',))], extra=True),
+                plain('Doc', [P('name', ('str',)), P('payload', ('any',))])]
+        loose = plain('Loose', [P('a', ('int',)), P('some_thing', rng.choice([('any',), None]), default=None)],
+                      extra=rng.random() < 0.7)
+        if rng.random() < 0.3:
+            loose['savorize'] = [('d2u',)]
+        if rng.random() < 0.4:
+            loose['recognize'] = [('rmapping',)]
+        spec.append(loose)
+        tags = ['!Kind', '!Word', '!Thing', '!Open', '!Doc', '!Path', '!Nowhere', '!!set', '!!binary',
+                '!!python/name:os.system', '!!timestamp', '!!str', '!!int']
+        body = G.gen_any(rng, 3)
+        if body[0] == 's' or rng.random() < 0.5:
+            body = ('m', [(S(rng.choice(['a', 'b', 'red'])), G.gen_any(rng, 2)),
+                          (S(rng.choice(['c', 'true', '12'])), G.gen_any(rng, 1))], None)
+        for _k in range(rng.randint(1, 3)):
+            ps = G.all_paths(body)
+            keys = [p for p in ps if p and p[-1] == 0 and len(p) >= 2]
+            p = rng.choice(keys) if keys and rng.random() < 0.6 else rng.choice(ps)
+            tag = rng.choice(tags)
+            r = rng.random()
+            if p in keys and r < 0.25:
+                # a complex key: a tagged mapping / sequence as the key
+                ck = rng.choice([('m', [(S('v'), S('1'))], '!Thing'), ('q', [S('1')], '!Thing'),
+                                 ('m', [(S('a'), S('1')), (S('z'), S('2'))], '!Open')])
+                body = G.replace_at(body, p, lambda d: ck)
+            else:
+                body = G.replace_at(body, p, lambda d: G.with_tag(d, tag) if d[0] in ('s', 'q', 'm') else d)
+        shape = rng.choice(['any', 'payload', 'extra', 'list', 'dict', 'dashed-any', 'dup-any', 'dashed-any'])
+        if shape == 'dashed-any':
+            t, doc = ('cls', 'Loose'), ('m', [(S('a'), S('1')), (S('some-thing'), body)], None)
+        elif shape == 'dup-any':
+            t = ('cls', 'Loose')
+            first = rng.choice([S('1'), G.gen_any(rng, 1), body])
+            k1, k2 = rng.choice([('some_thing', 'some_thing'), ('some-thing', 'some_thing'),
+                                 ('some_thing', 'some-thing')])
+            doc = ('m', [(S('a'), S('1')), (S(k1), first), (S(k2), body)], None)
+        elif shape == 'any':
+            t, doc = ('any',), body
+        elif shape == 'payload':
+            t, doc = ('cls', 'Doc'), ('m', [(S('name'), S('n')), (S('payload'), body)], None)
+        elif shape == 'extra':
+            t = ('cls', 'Open')
+            rest = body[1] if body[0] == 'm' else [(S('more'), body)]
+            doc = ('m', [(S('a'), S('1'))] + [(k, v) for k, v in rest
+                                               if not (k[0] == 's' and k[1] == 'a')], None)
+        elif shape == 'list':
+            t, doc = ('seq', 'list', ('any',)), ('q', [body, S('1')], None)
+        else:
+            t, doc = ('map', 'dict', ('str',), ('any',)), ('m', [(S('k'), body)], None)
+        try:
+            c = L.build_case(rng, yaml, yatiml, spec, t, doc, ('untyped-region', shape))
+            L.run_case(c, yaml)
+        except Exception as e:  # noqa
+            ctx.count('gen_error:' + type(e).__name__)
+            continue
+        ctx.count('untyped_region:' + shape)
+        yield c
+
+
+def class_key_faults(ctx, n):
+    """yield cases in which the mapping of a class — preferably one with hooks (custom recogniser,
+    savorize incl. dashes-to-underscores) or _yatiml_extra — names an attribute twice, or in both its
+    underscored and its dashed spelling, or in the dashed spelling with a value of the wrong kind or
+    with a tag.  These are the inputs on which the recogniser, the savorizer, the attribute
+    processing and the constructor see different key sets."""
+    from props import c17
+    yaml, yatiml = L.setup()
+    rng = ctx.rng
+    S = G.S
+    made = attempts = 0
+    while made < n and attempts < n * 40:
+        attempts += 1
+        spec, cands = G.gen_model(rng)
+        if not any(c.get('recognize') or c.get('savorize') or c.get('extra') for c in spec) \
+                and rng.random() < 0.6:
+            continue
+        try:
+            t = rng.choice(cands)
+            doc = G.gen_doc(rng, spec, t)
+            maps = [p for p in c17.class_map_paths(spec, doc, t) if G.get_at_path(doc, p)[1]]
+        except Exception:  # noqa
+            continue
+        if not maps:
+            continue
+        und = [p for p in maps if any(k[0] == 's' and '_' in k[1] for k, _ in G.get_at_path(doc, p)[1])]
+        q = rng.choice(und) if und else rng.choice(maps)
+        if not und and rng.random() < 0.5:
+            continue
+        m = G.get_at_path(doc, q)
+        pairs = list(m[1])
+        skeys = [i for i, (k, v) in enumerate(pairs) if k[0] == 's']
+        if not skeys:
+            continue
+        under = [i for i in skeys if '_' in pairs[i][0][1]]
+        own = ['!' + c['name'] for c in spec] + ['!Unrelated', '!!set']
+        wrong = [S('true'), S('1'), S('zzz'), S('1.5'), S('~'), ('q', [S('a')], None),
+                 ('m', [(S('v'), S('1'))], rng.choice(own)), ('s', 'red', False, rng.choice(own))]
+        fault = rng.choice(['dup-same', 'dup-other', 'both', 'both-wrong', 'dashed', 'dashed-wrong',
+                            'dashed-tagged'] if under else ['dup-same', 'dup-other'])
+        i = rng.choice(under if under and not fault.startswith('dup') else skeys)
+        k, v = pairs[i]
+        dk = S(k[1].replace('_', '-'))
+        if fault == 'dup-same':
+            pairs.insert(rng.randint(0, len(pairs)), (k, v))
+        elif fault == 'dup-other':
+            pairs.insert(rng.randint(0, len(pairs)), (k, rng.choice(wrong)))
+        elif fault == 'both':
+            pairs.insert(rng.randint(0, len(pairs)), (dk, v))
+        elif fault == 'both-wrong':
+            pairs.insert(rng.randint(0, len(pairs)), (dk, rng.choice(wrong)))
+        elif fault == 'dashed':
+            pairs[i] = (dk, v)
+        elif fault == 'dashed-wrong':
+            pairs[i] = (dk, rng.choice(wrong))
+        else:
+            pairs[i] = (dk, G.with_tag(v, rng.choice(own)) if v[0] in ('s', 'q', 'm') else v)
+        doc2 = G.replace_at(doc, q, lambda d: ('m', pairs, m[2]))
+        try:
+            c = L.build_case(rng, yaml, yatiml, spec, t, doc2, ('class-key-fault', fault, q))
+            L.run_case(c, yaml)
+        except Exception as e:  # noqa
+            ctx.count('gen_error:' + type(e).__name__)
+            continue
+        made += 1
+        ctx.count('class_key_fault:' + fault)
+        yield c
+
+
+def hierarchy_cases(ctx, n):
+    """yield cases for small class hierarchies (a base, subclasses that add required and optional
+    attributes, with and without _yatiml_extra, siblings told apart by one attribute) and Unions of
+    unrelated classes; the document is written for one chosen class of the hierarchy and then,
+    sometimes, loses or gains a key or gets a tag"""
+    yaml, yatiml = L.setup()
+    rng = ctx.rng
+    S = G.S
+    scal = [('str',), ('int',), ('bool',), ('float',)]
+
+    def plain(name, bases, inherited, own, extra, abstract=None):
+        allp = [dict(p) for p in inherited] + own
+        req = [p for p in allp if p.get('default', CM.NODEFAULT) is CM.NODEFAULT]
+        optn = [p for p in allp if p.get('default', CM.NODEFAULT) is not CM.NODEFAULT]
+        params = req + optn
+        return dict(name=name, bases=bases, registered=True, kind='plain', params=params, all_params=params,
+                    extra=extra, abstract=abstract, define_init=True)
+
+    def own_params(used, k):
+        out = []
+        for _ in range(k):
+            cand = [a for a in G.ATTRS if a not in used]
+            a = rng.choice(cand)
+            used.add(a)
+            p = dict(name=a, type=rng.choice(scal))
+            if rng.random() < 0.25:
+                p['default'] = G.gen_default(rng, p['type'])
+            out.append(p)
+        return out
+    made = attempts = 0
+    while made < n and attempts < n * 10:
+        attempts += 1
+        used = set()
+        shape = rng.choice(['chain', 'siblings', 'union', 'chain'])
+        if shape == 'union':
+            a = plain('Alpha', [], [], own_params(used, rng.randint(1, 2)), rng.random() < 0.6)
+            b = plain('Beta', [], [], own_params(used, rng.randint(1, 2)), rng.random() < 0.6)
+            spec = [a, b]
+            ms = [('cls', 'Alpha'), ('cls', 'Beta')]
+            rng.shuffle(ms)
+            t = ('union', ms)
+        else:
+            base = plain('Alpha', [], [], own_params(used, rng.randint(0, 2)), rng.random() < 0.3,
+                         abstract=('abc' if rng.random() < 0.15 else None))
+            d1 = plain('Beta', ['Alpha'], base['params'], own_params(used, rng.randint(1, 2)), rng.random() < 0.5)
+            parent = d1 if shape == 'chain' else base
+            d2 = plain('Gamma', [parent['name']], parent['params'], own_params(used, rng.randint(1, 2)),
+                       rng.random() < 0.5)
+            spec = [base, d1, d2]
+            rng.shuffle(spec)
+            spec.sort(key=lambda c: len(c['bases']) and (2 if c['bases'][0] != 'Alpha' else 1))
+            t = ('cls', 'Alpha')
+            if rng.random() < 0.2:
+                t = ('seq', 'list', t)
+        try:
+            target = rng.choice([c['name'] for c in spec if not c.get('abstract')])
+            doc = G.gen_doc(rng, spec, ('cls', target))
+            # gen_doc picks among the concrete descendants of target
+            if doc[0] == 'm' and rng.random() < 0.45:
+                pairs = list(doc[1])
+                r = rng.random()
+                if r < 0.45 and pairs:
+                    del pairs[rng.randrange(len(pairs))]
+                elif r < 0.75:
+                    pairs.append((S(rng.choice(['bogus', 'other', 'mode'])), S('3')))
+                doc = ('m', pairs, rng.choice([None, None, '!' + rng.choice(spec)['name'], '!Nowhere',
+                                               '!<tag:example.org,2020:' + target + '>']) if r >= 0.75 else doc[2])
+            if t[0] == 'seq':
+                doc = ('q', [doc, G.gen_doc(rng, spec, ('cls', target))], None)
+            c = L.build_case(rng, yaml, yatiml, spec, t, doc, ('hierarchy', shape, target))
+            L.run_case(c, yaml)
+        except G.GenFail:
+            continue
+        except Exception as e:  # noqa
+            ctx.count('gen_error:' + type(e).__name__)
+            continue
+        made += 1
+        ctx.count('hierarchy:' + shape)
         yield c
 
 
